@@ -36,7 +36,7 @@ pending, nothing due left after a completed pass, one heap entry per task and
 present iff flagged, recurring slots on the exact grid and strictly after
 installation, deferred calls == submissions.
 """
-import glob, itertools, json, os, sys
+import copy, glob, itertools, json, os, sys
 from fractions import Fraction
 from . import core
 
@@ -59,7 +59,10 @@ ASSUMPTIONS = ["times and deltas are non-negative; enable_sleeping() is not used
                "scripted bodies do not install or suspend tasks themselves (only the recurring "
                "re-install inside TaskManager.process_task happens during a pass)"]
 
-FUEL = 20000
+FUEL = 2000                     # default bound on loop iterations of one run() (random/grid streams)
+DFS_FUEL = 300                  # ... in the dfs stream, where a legitimate pass needs < 40
+ONCE_READS = 4000               # clock reads allowed to one run_once() / API call
+MAX_FAILS = 300                 # a shard stops generating once it has this many property failures
 D = 500000                      # the one delta of the dfs stream (0.5 s, exact in binary)
 
 
@@ -67,6 +70,11 @@ class Boom(Exception):
     def __init__(self, who):
         Exception.__init__(self, "boom %r" % (who,))
         self.who = who
+
+
+class Overrun(Exception):
+    """raised by the virtual clock when one operation reads it too often: a loop of the code
+    under test does not come to rest (e.g. run_once spinning on delta == 0.0)"""
 
 
 class Trigger:
@@ -82,6 +90,10 @@ def us(x):
     """seconds (float) -> integer microseconds, exact rounding of the double's value"""
     if x is None:
         return None
+    v = x * 1000000.0
+    r = round(v)
+    if abs(v - r) < 0.2 and abs(v) < 4.0e15:      # far from a rounding boundary: the product's own
+        return int(r)                             # error (< 0.13 at 10^15) cannot change the result
     return int(round(Fraction(x) * 1000000))
 
 
@@ -116,6 +128,11 @@ class Impl:
         self.btask = self.vt.btask
         self.tm = self.vt.tm
         self.vt._idle = self.idle                 # our stub instead of vt's
+        self.btask._time = self.clock             # vt's clock, with a call budget per operation
+        self.reads = 0
+        self.max_reads = ONCE_READS
+        self.max_loops = FUEL
+        self.seq0 = 0
         self.trigger = Trigger()
         self.tm.trigger = self.trigger
         self.bcore.run._exception = self.logged
@@ -178,6 +195,11 @@ class Impl:
     def logged(self, fmt, *args):
         """what core.run / core.run_once call from their `except Exception`"""
         _et, ev, tb = sys.exc_info()
+        if isinstance(ev, Overrun):
+            self.out.append(["overrun"])
+            self.overrun = True
+            self.bcore.stop()
+            return
         who = getattr(ev, "who", None)
         if who and who[0] == "f":
             self.out.append(["ferr", who[1]])
@@ -193,10 +215,16 @@ class Impl:
             tb = tb.tb_next
         self.out.append(["terr", idx] if idx is not None else ["err", type(ev).__name__])
 
+    def clock(self):
+        self.reads += 1
+        if self.reads > self.max_reads:
+            raise Overrun("clock read %d times in one operation" % self.reads)
+        return self.vt.now
+
     def idle(self, timeout):
         """what core.run sees as asyncore.loop(timeout=delta, count=1)"""
         self.loops += 1
-        if self.loops > FUEL:
+        if self.loops > self.max_loops:
             self.overrun = True
             self.bcore.stop()
             return
@@ -221,18 +249,16 @@ class Impl:
 
     def reset(self, req):
         self.vt.reset(start=0.0)
-        self.tm.counter = itertools.count()
+        # installation numbers are reported relative to the counter's value at reset
+        self.seq0 = next(copy.copy(self.tm.counter))
         self.trigger.flag = False
         self.tpu = req.get("tpu", 1)
         self.tasks = [self.make_task(i, s) for i, s in enumerate(req["tasks"])]
         self.out, self.calls, self.subs = [], [], []
         self.snaps = {}
 
-    def counter_value(self):
-        return int(repr(self.tm.counter)[6:-1])
-
     def save(self, k):
-        self.snaps[k] = (self.vt.now, list(self.tm.tasks), self.counter_value(),
+        self.snaps[k] = (self.vt.now, list(self.tm.tasks), copy.copy(self.tm.counter),
                          [(t.taskTime, t.isScheduled, getattr(t, "taskInterval", None),
                            getattr(t, "taskIntervalOffset", None)) for t in self.tasks],
                          list(self.bcore.deferredFns), self.trigger.flag,
@@ -242,7 +268,7 @@ class Impl:
         now, heap, cnt, attrs, dq, flag, calls, subs = self.snaps[k]
         self.vt.now = now
         self.tm.tasks[:] = heap
-        self.tm.counter = itertools.count(cnt)
+        self.tm.counter = copy.copy(cnt)
         for t, (tt, sch, iv, off) in zip(self.tasks, attrs):
             t.taskTime, t.isScheduled = tt, sch
             if hasattr(t, "taskInterval"):
@@ -253,15 +279,17 @@ class Impl:
 
     def digest(self):
         heap = sorted(self.tm.tasks, key=lambda e: (e[0], e[1]))
-        return {"heap": [[us(w), n, t._c14_idx] for (w, n, t) in heap],
+        return {"heap": [[us(w), n - self.seq0, t._c14_idx] for (w, n, t) in heap],
                 "flags": [bool(t.isScheduled) for t in self.tasks],
                 "ttime": [us(t.taskTime) for t in self.tasks],
                 "trig": bool(self.trigger.flag),
                 "queue": [getattr(f[0], "_c14_id", -1) for f in self.bcore.deferredFns]}
 
     # ---- operations ---------------------------------------------------------
-    def run_until(self, T):
+    def run_until(self, T, fuel):
         self.T = T
+        self.max_loops = fuel
+        self.max_reads = 20 * fuel + ONCE_READS
         self.loops = 0
         self.overrun = False
         self.bcore.run(spin=1.0e9, sigterm=None, sigusr1=None)
@@ -275,6 +303,8 @@ class Impl:
         if "from" in req:
             self.restore(req["from"])
         self.out = []
+        self.reads = 0
+        self.max_reads = ONCE_READS
         aux = None
         vt = self.vt
         try:
@@ -307,17 +337,22 @@ class Impl:
                         self.out.append(["terr", task._c14_idx])
             elif op == "once":
                 vt.now = vt.now + self.sec(req["d"])
+                self.overrun = False
                 self.bcore.run_once()
-                aux = 1
+                aux = 0 if self.overrun else 1
             elif op == "run":
-                aux = self.run_until(vt.now + self.sec(req["d"]))
+                aux = self.run_until(vt.now + self.sec(req["d"]), req["fuel"])
             elif op == "jump":
                 T = max(self.tm.tasks[0][0], vt.now) if self.tm.tasks else vt.now
-                aux = self.run_until(T)
+                aux = self.run_until(T, req["fuel"])
             else:
                 raise core.Infra("bad op %r" % (op,))
         except core.Infra:
             raise
+        except Overrun:
+            self.bcore.running = False
+            self.out.append(["overrun"])
+            aux = 0
         except Exception as e:
             self.out.append(["raised", raised_kind(e)])
         tm = self.tm
@@ -369,6 +404,8 @@ class Oracle:
         return off + k * iv
 
     def near(self, a, b, slack=0):
+        if type(a) is int and type(b) is int:
+            return abs(a - b) <= self.tol + slack
         return abs(Fraction(a) - Fraction(b)) <= Fraction(1, 2) + self.tol + slack
 
     def step(self, req, rep, impl, fail):
@@ -416,7 +453,7 @@ class Oracle:
                     continue
                 if not self.near(fdue, p[0]):
                     fail("wrong-due", "task %d fired with due %d, scheduled for %s" % (tid, fdue, p[0]))
-                if fnow < fdue or Fraction(fnow) + Fraction(1, 2) + self.tol < p[0]:
+                if fnow < fdue or fnow + 0.5 + self.tol < p[0]:
                     fail("early", "task %d due %s fired at %d" % (tid, p[0], fnow))
                 for o, q in self.pending.items():
                     if o == tid:
@@ -440,7 +477,7 @@ class Oracle:
                     fail("no-quiescence", "the loop did not come to rest")
                 else:
                     for tid, p in self.pending.items():
-                        if p[0] + Fraction(1, 2) + self.tol < self.now:
+                        if p[0] + 0.5 + self.tol < self.now:
                             fail("due-not-fired", "task %d due %s still queued after a complete pass "
                                  "at %d" % (tid, float(p[0]), self.now))
                     if impl.calls != impl.subs:
@@ -511,11 +548,16 @@ def run_scenarios(ctx, stream, scns):
     impl = Impl.get()
     all_reqs, impl_reps, owners = [], [], []
     for si, scn in enumerate(scns):
+        if len(ctx.failures) > MAX_FAILS:
+            scns = scns[:si]
+            break
         orc = Oracle(scn)
         reqs = requests_of(scn)
         nfail = [0]
         for ri, req in enumerate(reqs):
             rep = impl.do(req)
+            if nfail[0]:
+                break                 # a history that already broke the property tells nothing more
             if req["op"] != "reset":
                 def fail(kind, what, _ri=ri, **fields):
                     nfail[0] += 1
@@ -564,7 +606,7 @@ def dfs_alphabet(k):
         out.append(({"op": "resume", "t": t}, k2))
         out.append(({"op": "bare", "t": t}, k2))
     out.append(({"op": "once", "d": D}, k))
-    out.append(({"op": "run", "d": D, "fuel": FUEL}, k))
+    out.append(({"op": "run", "d": D, "fuel": DFS_FUEL}, k))
     return out
 
 
@@ -613,14 +655,50 @@ def path_of(reqs, parents, i):
     return p[::-1]
 
 
+class AsyncDriver:
+    """core.Driver.ask, but the model runs while the implementation side is being executed"""
+
+    def __init__(self, requests):
+        import subprocess, tempfile
+        self.n = len(requests)
+        self.fin = tempfile.TemporaryFile("w+")
+        for r in requests:
+            self.fin.write(json.dumps(r, separators=(",", ":")) + "\n")
+        self.fin.flush(); self.fin.seek(0)
+        self.fout = tempfile.TemporaryFile("w+b")
+        self.p = subprocess.Popen([core.Driver("drv_c14").exe], stdin=self.fin, stdout=self.fout,
+                                  stderr=subprocess.PIPE)
+
+    def result(self, timeout=3000):
+        import subprocess
+        try:
+            _o, err = self.p.communicate(timeout=timeout)
+        except subprocess.TimeoutExpired:
+            self.p.kill()
+            raise core.Infra("driver timed out")
+        if self.p.returncode != 0:
+            raise core.Infra("driver failed rc=%s: %s" % (self.p.returncode, err.decode()[-500:]))
+        self.fout.seek(0)
+        lines = self.fout.read().decode().split("\n")
+        self.fin.close(); self.fout.close()
+        if lines and lines[-1] == "":
+            lines.pop()
+        if len(lines) != self.n:
+            raise core.Infra("driver answered %d of %d requests" % (len(lines), self.n))
+        return [json.loads(l) for l in lines]
+
+
 def shard_dfs(ctx, spec):
     L, prefixes = spec
     impl = Impl.get()
-    drv = core.Driver("drv_c14") if ctx.model_ok else None
     tasks = [PLAIN] * 4
     head = [{"op": "reset", "tpu": 1, "tasks": tasks}]
     for prefix, k in prefixes:
+        if len(ctx.failures) > MAX_FAILS:
+            ctx.notes.append("dfs shard stopped early after %d property failures" % len(ctx.failures))
+            break
         reqs, parents = dfs_subtree(prefix, k, L)
+        drv = AsyncDriver(head + reqs) if ctx.model_ok else None
         scn = {"tpu": 1, "tasks": tasks, "ops": []}
         orc = Oracle(scn)
         impl.do(head[0])
@@ -636,7 +714,7 @@ def shard_dfs(ctx, spec):
         if drv is None:
             ctx.count("dfs", n=len(reqs))
             continue
-        mreps = drv.ask(head + reqs)[1:]
+        mreps = drv.result()[1:]
         ndis = 0
         for i, (req, a, b) in enumerate(zip(reqs, reps, mreps)):
             if b.get("r") == "bad-request":
